@@ -694,6 +694,13 @@ func c07Replay(c *Ctx, line string) {
 		base := c07Dump(strings.NewReader(src), l, stop, keep)
 		c07ParseCase(c, src, l, stop, keep, c07ParseSched(f[3]), f[4] == "1", base)
 		c.Case("corpus/"+line, true, "corpus-parse")
+	case (len(f) == 6 || (len(f) == 7 && f[6] == "nokeep")) && f[0] == "entry":
+		keep := len(f) == 6
+		l := c07LangByName(f[2])
+		src := unhx(f[5])
+		base := c07DumpEntry(f[1], strings.NewReader(src), l, keep)
+		c07EntryCase(c, f[1], src, l, keep, c07ParseSched(f[3]), f[4] == "1", base)
+		c.Case("corpus/"+line, true, "corpus-entry")
 	case len(f) >= 6 && f[0] == "run":
 		ops := f[5:]
 		got, done := c07Run(unhx(f[1]), c07ParseSched(f[2]), f[3] == "1", unhx(f[4]), ops, false)
@@ -719,6 +726,139 @@ var c07Lookahead = []struct {
 	{syntax.LangZsh, "echo ${=foo} ${~foo} ${^foo}\n"}, {syntax.LangZsh, "echo ${==foo} ${~~foo} ${^^foo} $=x\n"},
 	{syntax.LangZsh, "echo <-> <1-10> foo<5->.txt <2-3\n"}, {syntax.LangBash, "echo `echo \\\\\\\\\\$x`\n"},
 	{syntax.LangBash, "a=(b c)\n"}, {syntax.LangBash, "echo \xc3\xa9\xe2\x82\xac\n"},
+}
+
+// c07Entries: every public entry point of the parser that takes an io.Reader.
+var c07Entries = []string{"Parse", "StmtsSeq", "InteractiveSeq", "WordsSeq", "Document", "Arithmetic"}
+
+// c07DumpEntry parses rd through the named entry point and renders everything it delivers (typedjson with
+// positions) plus the error text.  InteractiveSeq delivers statements in batches whose boundaries follow the
+// Read calls by design; the batches are concatenated.
+func c07DumpEntry(entry string, rd io.Reader, l syntax.LangVariant, keep bool) string {
+	var out string
+	pn := safely(func() {
+		p := syntax.NewParser(syntax.Variant(l), syntax.KeepComments(keep))
+		var sb bytes.Buffer
+		enc := func(n syntax.Node) {
+			if e := typedjson.Encode(&sb, n); e != nil {
+				sb.WriteString("encode-error:" + e.Error())
+			}
+			sb.WriteByte(';')
+		}
+		var err error
+		switch entry {
+		case "Parse":
+			var f *syntax.File
+			f, err = p.Parse(rd, "")
+			if f != nil {
+				enc(f)
+			}
+		case "StmtsSeq":
+			for st, e := range p.StmtsSeq(rd) {
+				if e != nil {
+					err = e
+					break
+				}
+				enc(st)
+			}
+		case "InteractiveSeq":
+			for sts, e := range p.InteractiveSeq(rd) {
+				if e != nil {
+					err = e
+					break
+				}
+				for _, st := range sts {
+					enc(st)
+				}
+			}
+		case "WordsSeq":
+			for w, e := range p.WordsSeq(rd) {
+				if e != nil {
+					err = e
+					break
+				}
+				enc(w)
+			}
+		case "Document":
+			var w *syntax.Word
+			w, err = p.Document(rd)
+			if w != nil {
+				enc(w)
+			}
+		case "Arithmetic":
+			var x syntax.ArithmExpr
+			x, err = p.Arithmetic(rd)
+			if x != nil {
+				enc(x)
+			}
+		}
+		out = fmt.Sprintf("err=%v out=%s", err, strings.ReplaceAll(sb.String(), "\n", ""))
+	})
+	if pn != "" {
+		return "panic: " + pn
+	}
+	return out
+}
+
+// c07EntryCase compares an entry point under the given schedule with its single-read result.
+// witness format: entry <name> <lang> <sched> <eofWith> <input-hex> [nokeep]
+func c07EntryCase(c *Ctx, entry, src string, l syntax.LangVariant, keep bool, sched []int, eofWith bool, base string) bool {
+	got := c07DumpEntry(entry, &c07Reader{data: []byte(src), sched: sched, eofWith: eofWith}, l, keep)
+	if got == base {
+		return true
+	}
+	ew := "0"
+	if eofWith {
+		ew = "1"
+	}
+	w := fmt.Sprintf("entry %s %s %s %s %s", entry, langName(l), c07SchedStr(sched), ew, hx(src))
+	if !keep {
+		w += " nokeep"
+	}
+	c.Fail(w, entry+" differs from the single-read result: "+c07First(base, got))
+	return false
+}
+
+// c07PrefixBattery: inputs with special prefixes (byte order mark, parts of it, `#!` line, NUL, CR, blank
+// lines, escaped newline) whose first read delivers 1, 2, 3 or 4 bytes, through every entry point.
+func c07PrefixBattery(c *Ctx) {
+	if c.Shard != 0 {
+		return
+	}
+	prefixes := []string{"", "\xef\xbb\xbf", "\xef\xbb", "\xef", "\xef\xbb\xbf\xef\xbb\xbf", "#!/bin/sh\n", "\xef\xbb\xbf#!/bin/sh\n",
+		"\x00", "\x00\x00\x00", "\r", "\r\n", "\n", "\n\n\n", " ", "\t \t", "\\\n", "\xc3\xa9", "# c\n"}
+	bodies := map[string][]string{
+		"Parse":          {"echo foo\n", "", "a=1 b; c\n"},
+		"StmtsSeq":       {"echo foo\n", "", "a=1 b; c\n"},
+		"InteractiveSeq": {"echo foo\n", "", "a; b\nc\n"},
+		"WordsSeq":       {"foo bar\n", ""},
+		"Document":       {"foo $bar\n", ""},
+		"Arithmetic":     {"1+2", "a"},
+	}
+	scheds := [][]int{{1}, {2}, {3}, {4}, {1, 1}, {1, 2}, {2, 1}, {1, 1, 1}, {0, 1, 0, 2}}
+	n := 0
+	for _, entry := range c07Entries {
+		for _, pre := range prefixes {
+			for bi, body := range bodies[entry] {
+				src := pre + body
+				if src == "" {
+					continue
+				}
+				keep := (bi+len(pre))%2 == 0
+				l := allLangs[(bi+len(pre))%len(allLangs)]
+				base := c07DumpEntry(entry, strings.NewReader(src), l, keep)
+				for _, sc := range scheds {
+					c07EntryCase(c, entry, src, l, keep, sc, false, base)
+				}
+				c07EntryCase(c, entry, src, l, keep, c07Ones(len(src)), false, base)
+				c07EntryCase(c, entry, src, l, keep, nil, true, base)
+				c07EntryCase(c, entry, src, l, keep, []int{2}, true, base)
+				n++
+			}
+		}
+	}
+	c.Case("battery-prefix", true, "battery-prefix")
+	c.Extra["prefix_battery_inputs"] = n
 }
 
 // c07BadTemplates: `@` is replaced by an invalid UTF-8 byte sequence.
@@ -825,12 +965,13 @@ func c07(c *Ctx) {
 		"× schedules {single read, one byte, one split, random chunks with zero-length reads, zero reads + split at the buffer edge} " +
 		"× EOF with/without the last data; spec: protocol-respecting op sequences vs the unchunked machine; search: Parse " +
 		"(typedjson with positions, or error text) with and without KeepComments, of repository test inputs, generated programs and inputs with invalid UTF-8 (lone bytes, truncated, overlong) in comments/words/quotes/heredocs, padded around the buffer edge, " +
-		"5 variants, optional StopAt words, one-byte / ≤64 single splits / 3 random chunkings / EOF with the last data vs single read; a fixed battery of two-byte-lookahead inputs under every split; non-trivial = input has a metacharacter of the " +
+		"5 variants, optional StopAt words, one-byte / ≤64 single splits / 3 random chunkings / EOF with the last data vs single read; a fixed battery of two-byte-lookahead inputs under every split; a fixed battery of prefixes (BOM, partial BOM, #!, NUL, CR, blank lines) with a first read of 1–4 bytes through Parse, StmtsSeq, InteractiveSeq, WordsSeq, Document and Arithmetic; non-trivial = input has a metacharacter of the " +
 		"byte layer or crosses the buffer edge; distinct by (variant, input)"
 	for _, l := range c.CorpusLines() {
 		c07Replay(c, l)
 	}
 	c07LookaheadBattery(c)
+	c07PrefixBattery(c)
 	r := c.R
 	t0 := time.Now()
 	defer func() { c.Extra["search_seconds"] = int(time.Since(t0).Seconds()) }()
